@@ -37,9 +37,9 @@ type splitCase struct {
 }
 
 type splitObs struct {
-	Segs []int                 `json:"segs"`
+	Segs []int                   `json:"segs"`
 	Obs  map[string][][][]string `json:"obs"`
-	Errs []string              `json:"errs,omitempty"`
+	Errs []string                `json:"errs,omitempty"`
 }
 
 // toSymbols maps a field back to symbols.
